@@ -242,6 +242,17 @@ Theorem C10_asm_gfpMul_product_partial : forall a0 a1 a2 a3 b0 b1 b2 b3,
 Proof. intros. split. exact nobmi2_split. apply gfpMul_nobmi2_product_partial; assumption. Qed.
 Print Assumptions C10_asm_gfpMul_product_partial.
 
+(* the same for the MULX path: R8..R15 hold the product after the mulBMI2 macro *)
+Theorem C10_asm_gfpMulx_product_partial : forall a0 a1 a2 a3 b0 b1 b2 b3,
+  0 <= a0 < W -> 0 <= a1 < W -> 0 <= a2 < W -> 0 <= a3 < W ->
+  0 <= b0 < W -> 0 <= b1 < W -> 0 <= b2 < W -> 0 <= b3 < W ->
+  gfpMul_bmi2 = bmi2_mul_part ++ concat (skipn 4 gfpMul_bmi2_segs) /\
+  exists st, exec bmi2_mul_part (init_state asm_p2 asm_np [a0;a1;a2;a3] [b0;b1;b2;b3]) = Some st /\
+             Forall (fun w => 0 <= w < W) (vals regs8 (mem st)) /\
+             lval (vals regs8 (mem st)) = lval [a0;a1;a2;a3] * lval [b0;b1;b2;b3].
+Proof. intros. split. exact bmi2_split. apply gfpMul_bmi2_product_partial; assumption. Qed.
+Print Assumptions C10_asm_gfpMulx_product_partial.
+
 (* the arithmetic core of the reduction, and the constants it is used with *)
 Theorem C10_asm_montgomery_core : forall T m P N' R,
   0 < R -> (N' * P + 1) mod R = 0 -> m = ((T mod R) * N') mod R -> (T + m * P) mod R = 0.
